@@ -83,8 +83,12 @@ def _plan(w, op):
             raise Unspec("handle-based set of a mechanism column")
         if kind in ("record", "clamp") and op.get("state", "v") != "v":
             raise Unspec("handle-based record / clamp of a mechanism state")
-        if kind in ("insert", "delete_channel", "make_trainable", "set_ncomp"):
-            raise Unspec("handle-based structural / trainable call")
+        if kind == "make_trainable" and not (op["key"] in ("radius", "length", "axial_resistivity", "capacitance") and op.get("init") == "float"):
+            # a handle shows the tables as they were when it was made: only columns that always exist, and an explicit
+            # initial value (not the mean of possibly outdated table values), keep the call inside documented behaviour
+            raise Unspec("handle-based make_trainable of a mechanism column or with a table-derived initial value")
+        if kind in ("insert", "delete_channel", "set_ncomp"):
+            raise Unspec("handle-based structural call")
 
     if kind == "set":
         rv, thunk = with_view(op["view"])
